@@ -44,10 +44,12 @@ theorem inv_done_flush {cfg : Cfg} {s : St} {d : Disk} (h : Inv cfg s d) {j : Jo
   · exact h.disk
   · exact h.mm
   · intro _
-    exact hb.of_same rfl (Nat.le_refl _) (Nat.le_refl _) (fun hr => ⟨hr, Nat.le_refl _⟩)
+    exact hb.of_same rfl (seqHi_le_of_not_window (not_trWindow_of_kind hj (by rw [hk]; exact fun hx => nomatch hx))
+      (not_trWindow_of_nojob rfl) (Nat.le_refl _)) (Nat.le_refl _) (fun hr => ⟨hr, Nat.le_refl _⟩)
   · intro _
     obtain ⟨r1, r2, r3, r4, r5, r6, r7, r8, r9⟩ := hrun
-    refine ⟨r1, ⟨MfdOK.nojob rfl hfd, r2.2⟩, r3, r4, r5, r6, frozenOK_iff.2 (Or.inl ⟨rfl, rfl⟩), ?_, fun _ => ?_⟩
+    refine ⟨⟨r1.1, Holds'.imp (o := s.tr) r1.2 (fun g hg => ⟨hg.1, hg.2.1, rfl, hg.2.2.2⟩)⟩,
+      ⟨MfdOK.nojob rfl hfd, r2.2⟩, r3, r4, r5, r6, frozenOK_iff.2 (Or.inl ⟨rfl, rfl⟩), ?_, fun _ => ?_⟩
     · apply holds_of_some hcur
       apply holds_of_some hv0
       intro p hp hjn0
@@ -115,7 +117,8 @@ theorem inv_done_recovMid {cfg : Cfg} {s : St} {d : Disk} (h : Inv cfg s d) {j :
   · exact h.disk
   · exact h.mm
   · intro _
-    exact hb.of_same rfl (Nat.le_refl _) (Nat.le_refl _) (fun hr' => ⟨hr', Nat.le_refl _⟩)
+    exact hb.of_same rfl (seqHi_le_of_not_window (not_trWindow_of_kind hj (by rw [hk]; exact fun hx => nomatch hx))
+      (not_trWindow_of_nojob rfl) (Nat.le_refl _)) (Nat.le_refl _) (fun hr' => ⟨hr', Nat.le_refl _⟩)
   · intro hc; rw [hph] at hc; cases hc
   · intro _
     rw [hr]
@@ -182,9 +185,12 @@ theorem inv_done_recovFinal {cfg : Cfg} {s : St} {d : Disk} (h : Inv cfg s d) {j
   · exact h.mm
   · intro _
     apply ViewBounds.single hcur hun hv0
+    rw [seqHi_eq (not_trWindow_of_kind hj (by rw [hk]; exact fun hx => nomatch hx))] at hbv
+    rw [seqHi_eq (not_trWindow_of_nojob rfl)]
     exact ⟨hbv.1, hbv.2.1, fun _ => by rw [hvjn, hjc]; exact Nat.le_refl _⟩
   · intro _
-    refine ⟨rfl, ⟨MfdOK.nojob rfl hfd, hopen⟩, ?_, ?_, ⟨hrec.nums.1, hrec.nums.2.1⟩, ?_,
+    refine ⟨⟨rfl, by unfold TrOK; show Holds' s.tr _; rw [hrec.idle.2.2]; trivial⟩,
+      ⟨MfdOK.nojob rfl hfd, hopen⟩, ?_, ?_, ⟨hrec.nums.1, hrec.nums.2.1⟩, ?_,
       frozenOK_iff.2 (Or.inl ⟨rfl, rfl⟩), ?_, fun _ => ?_⟩
     · show Holds (lookup d.journals s.jcur) _
       have hl : lookup d.journals pn.1 = some pn.2 := lookup_of_mem hnd (by cases pn; exact hpn)
@@ -214,6 +220,121 @@ theorem inv_done_recovFinal {cfg : Cfg} {s : St} {d : Disk} (h : Inv cfg s d) {j
   · intro hc; cases hc
   · trivial
 
+theorem inv_done_compaction {cfg : Cfg} {s : St} {d : Disk} (h : Inv cfg s d) {j : Job} (hj : s.job = some j)
+    (hpc : j.pc = .done) (hk : j.kind = .compaction) : Inv cfg (finishJob s j) d := by
+  have hok := h.job
+  rw [hj] at hok
+  have hok : JobOK cfg s d j := hok
+  obtain ⟨mf, v, hcur, hun, hlv, hv0, hmir, hopen, hfd, hjn⟩ := h.done_facts hj hpc
+  have hkind := hok.kind
+  unfold JobKindOK at hkind
+  rw [hk] at hkind
+  simp only at hkind
+  obtain ⟨hph, _⟩ := hkind
+  have hrun := h.run hph
+  have hb := h.bounds (by rw [hph]; decide)
+  have hfp : FlushPending s := by
+    unfold FlushPending; rw [hj]; intro hf; rw [hk] at hf; cases hf
+  unfold finishJob
+  rw [hk]
+  simp only
+  constructor
+  · exact h.disk
+  · exact h.mm
+  · intro _
+    exact hb.of_same rfl (seqHi_le_of_not_window (not_trWindow_of_kind hj (by rw [hk]; exact fun hx => nomatch hx))
+      (not_trWindow_of_nojob rfl) (Nat.le_refl _)) (Nat.le_refl _) (fun hr => ⟨hr, Nat.le_refl _⟩)
+  · intro _
+    obtain ⟨r1, r2, r3, r4, r5, r6, r7, r8, r9⟩ := hrun
+    refine ⟨r1, ⟨MfdOK.nojob rfl hfd, r2.2⟩, r3, r4, r5, r6, ?_, r8, fun _ => ?_⟩
+    · rcases frozenOK_iff.1 r7 with ⟨h1, h2⟩ | ⟨fz, jf, h1, h2, f1, f2, f3, f4, f5, f6⟩
+      · exact frozenOK_iff.2 (Or.inl ⟨h1, h2⟩)
+      · exact frozenOK_iff.2 (Or.inr ⟨fz, jf, h1, h2, f1, f2, f3, f4, f5, fun _ => f6 hfp⟩)
+    · unfold Settled
+      rw [hcur]
+      exact ⟨fun _ => hun, by rw [hlv]; exact hmir⟩
+  · intro hc; rw [hph] at hc; cases hc
+  · intro hc; rw [hph] at hc; cases hc
+  · trivial
+
+/-- `db.setSeq(tr.seq)`: the transaction is acknowledged -/
+theorem inv_done_tr {cfg : Cfg} {s : St} {d : Disk} (h : Inv cfg s d) {j : Job} (hj : s.job = some j)
+    (hpc : j.pc = .done) (hk : j.kind = .tr) : Inv cfg (finishJob s j) d := by
+  have hok := h.job
+  rw [hj] at hok
+  have hok : JobOK cfg s d j := hok
+  obtain ⟨mf, v, hcur, hun, hlv, hv0, hmir, hopen, hfd, hjn⟩ := h.done_facts hj hpc
+  have hkind := hok.kind
+  unfold JobKindOK at hkind
+  rw [hk] at hkind
+  simp only at hkind
+  obtain ⟨hph, _, _, _, hkind⟩ := hkind
+  rw [holds_iff] at hkind
+  obtain ⟨g, hg, hkind⟩ := hkind
+  rw [holds_iff] at hkind
+  obtain ⟨e, he, _, hesq, houts, hgne, hgi⟩ := hkind
+  have hrun := h.run hph
+  have hb := h.bounds (by rw [hph]; decide)
+  have htr := hrun.norecov.2
+  unfold TrOK at htr
+  rw [hg] at htr
+  obtain ⟨hw, hmem, hfz, hgs, hgsync⟩ : s.w = .idle ∧ s.mem = [] ∧ s.frozen = none ∧ g.seq = s.seq + 1 ∧ g.sync = true := htr
+  have hfin := Grp.seq_lt_fin hgne
+  have hbv := hb.all mf hcur 0 (Nat.zero_le _) v hv0
+  rw [seqHi_post hj (by rw [hpc]; rfl)] at hbv
+  have hcap : sqCap s j = g.fin - 1 := by unfold sqCap; rw [if_pos hk, hg]
+  rw [hcap] at hbv
+  -- the transaction's table is live in the (only) view
+  have hcom := hok.committed (by rw [hpc]; rfl)
+  rw [hlv] at hcom
+  have hcom : ∀ o ∈ j.outs, o.1 ∈ v.live ∧ lookup d.tables o.1 = some ⟨o.2, true, false⟩ := hcom
+  have hglive : g ∈ liveGrps d v := by
+    obtain ⟨h1, h2⟩ := hcom (e.added.headD 0, [g]) (by rw [houts]; exact List.mem_singleton.2 rfl)
+    refine List.mem_flatMap.2 ⟨_, h1, ?_⟩
+    simp only [tableGrpsOf, h2, Option.map_some, Option.getD_some, List.mem_singleton]
+  unfold finishJob
+  rw [hk]
+  simp only [hg]
+  constructor
+  · apply h.disk.mono_cover
+    · intro x hx
+      rw [must_eq] at hx ⊢
+      simp only [hw, List.append_nil] at hx ⊢
+      rcases mem_ackedSync_setStatus hx with h1 | ⟨rfl, _⟩
+      · exact Or.inl h1
+      · right
+        intro mf1 hc1 k hk1 v1 hv1
+        rw [hcur] at hc1; cases hc1
+        have : k = 0 := by simpa [hun] using hk1
+        subst this
+        rw [hv0] at hv1; cases hv1
+        exact Or.inl hglive
+    · intro x hx
+      simp only [issuedGrps, issuedGrps_setStatus] at hx ⊢
+      exact hx
+  · exact h.mm
+  · intro _
+    apply ViewBounds.single hcur hun hv0
+    rw [seqHi_eq (not_trWindow_of_nojob rfl)]
+    exact ⟨hbv.1, hbv.2.1, hbv.2.2⟩
+  · intro _
+    obtain ⟨r1, r2, r3, r4, r5, r6, r7, r8, r9⟩ := hrun
+    refine ⟨⟨r1.1, trivial⟩, ⟨MfdOK.nojob rfl hfd, r2.2⟩, r3, r4, r5, ?_, ?_, r8, fun _ => ?_⟩
+    · show WSeqOK _
+      unfold WSeqOK
+      rw [hw]
+      simp only [hmem]
+      intro x hx; cases hx
+    · rcases frozenOK_iff.1 r7 with ⟨h1, h2⟩ | ⟨fz, jf, h1, _⟩
+      · exact frozenOK_iff.2 (Or.inl ⟨h1, h2⟩)
+      · rw [hfz] at h1; cases h1
+    · unfold Settled
+      rw [hcur]
+      exact ⟨fun _ => hun, by rw [hlv]; exact hmir⟩
+  · intro hc; rw [hph] at hc; cases hc
+  · intro hc; rw [hph] at hc; cases hc
+  · trivial
+
 theorem inv_job_done {cfg : Cfg} {s : St} {d : Disk} (h : Inv cfg s d) {j : Job}
     (hj : s.job = some j) (hpc : j.pc = .done) {rot : Bool}
     {s' : St} {d' : Disk} (hs : stepJob cfg s d j rot .ok = some (s', d')) : Inv cfg s' d' := by
@@ -223,9 +344,11 @@ theorem inv_job_done {cfg : Cfg} {s : St} {d : Disk} (h : Inv cfg s d) {j : Job}
   rw [stepJob_done hpc] at hs
   simp only [Option.some.injEq, Prod.mk.injEq] at hs
   obtain ⟨rfl, rfl⟩ := hs
-  rcases hok.kinds with hk | hk | hk
+  rcases hok.kinds with hk | hk | hk | hk | hk
   · exact inv_done_flush h hj hpc hk
   · exact inv_done_recovMid h hj hpc hk
   · exact inv_done_recovFinal h hj hpc hk
+  · exact inv_done_compaction h hj hpc hk
+  · exact inv_done_tr h hj hpc hk
 
 end GoLevel.Dur
